@@ -43,7 +43,7 @@ UNPROVED = ["ownership (a result's validity is its own) is a requirement stated 
             "theorems result_owns_validity / write_leaves_operands) and OBSERVED on the code with np.shares_memory and "
             "write-through probes; unary plus returns its operand (open finding D7)",
             "values of masks returned by mean / integrate / fftn family (new cell sets, not named by the property) are not compared"]
-BUDGET = {"quick": 110, "thorough": 1200}
+BUDGET = {"quick": 150, "thorough": 1500}
 
 PAD_MODES = ["constant", "edge", "wrap", "symmetric", "reflect"]
 UFUNC1 = ["sin", "negative", "square", "absolute", "sign", "exp", "isfinite"]
@@ -803,14 +803,14 @@ SETTER_SPECS = ["none", "true", "false", "int0", "int1", "int2", "neg1", "float0
 
 def cases(rng, tier):
     quick = tier == "quick"
-    yield from sweep_cases(rng, 8 if quick else 60)
-    for _ in range(4000 if quick else 60000):
+    yield from sweep_cases(rng, 6 if quick else 60)
+    for _ in range(2500 if quick else 60000):
         mesh = small_mesh(rng)
         leaves = gen_leaves(rng, rng.choice([1, 2, 2, 3]))
         steps = gen_program(rng, mesh, leaves, rng.choice([2, 3, 3, 4, 5]))
         if steps:
             yield dict(kind="prog", mesh=mesh, leaves=leaves, steps=steps, sub=rng.getrandbits(32), why="random")
-    for rep in range(10 if quick else 150):
+    for rep in range(8 if quick else 150):
         for spec in SETTER_SPECS:
             mesh = small_mesh(rng)
             yield dict(kind="setter", mesh=mesh, nvdim=rng.choice([1, 2, 3]), spec=spec, ctor=rng.random() < 0.4,
@@ -1034,7 +1034,6 @@ def run_prog(case):
         snaps = [mask_bytes(g) for g in vals]
         so = dict(ok=False, ndim_in=int(ins[0].mesh.region.ndim), nvdim_in=int(ins[0].nvdim))
         obs["steps"].append(so)
-        data_before = [g.array.copy() for g in ins]
         spec_info = None
         try:
             if name == "setv":
@@ -1065,9 +1064,6 @@ def run_prog(case):
         shared = check_result(tag, res, vals, snaps, fail)
         if not isinstance(res, df.Field):
             break
-        for g, b in zip(ins, data_before):
-            if not np.array_equal(g.array, b, equal_nan=True):
-                fail(f"[{tag}] changed the stored values of an operand")
         # ---- values of the mask
         m0 = np.frombuffer(snaps[st["in"][0]][2], dtype=bool).reshape(snaps[st["in"][0]][1])
         if cls.kind in ("same", "alias"):
@@ -1102,6 +1098,11 @@ def run_prog(case):
                 if res.valid.shape != exp.shape or not np.array_equal(res.valid[~band], exp[~band]):
                     fail(f"[{tag}] mask is not what the argument says ({int(res.valid.sum())} vs {int(exp.sum())} valid cells)")
                 so["band"] = band.reshape(-1).tolist()
+                if band.any() and res.valid.shape == exp.shape:
+                    # lengths within rounding of the threshold: either outcome is allowed; the model is told the observed one
+                    # (stand-in length 1 / 0) so that later steps of the program stay comparable
+                    mspec = dict(mspec, vals=[(Qs([1.0] + [0.0] * (len(row) - 1)) if v else Qs([0.0] * len(row))) if b else row
+                                              for row, b, v in zip(mspec["vals"], so["band"], res.valid.reshape(-1).tolist())])
             if isinstance(pyval, np.ndarray):
                 if np.shares_memory(res.valid, pyval):
                     fail(f"[{tag}] stored validity shares memory with the array that was assigned")
@@ -1167,8 +1168,8 @@ def run_setter(case):
     if exp is not None and tuple(v.shape) == n and not np.array_equal(v[~band], exp[~band]):
         bad = np.argwhere((v != exp) & ~band)[0].tolist()
         fail(f"[{tag}] mask is not what the argument says: cell {bad} is {bool(v[tuple(bad)])}, value there {g.array[tuple(bad)].tolist()}")
-    if exp is None:
-        fail(f"[{tag}] malformed argument accepted (validity shape {tuple(v.shape)})")
+    # (a malformed argument that is accepted is not a property failure as long as the result is a bool array of the mesh
+    #  shape; accept/reject is compared with the model)
     if isinstance(pyval, np.ndarray):
         if np.shares_memory(v, pyval):
             fail(f"[{tag}] stored validity shares memory with the assigned array")
